@@ -1161,6 +1161,11 @@ def explore_c17(tier, seed):
         for v in paired.table_reuse(scs[0], None, s, pid="C17"):
             res["paired_runs"] += 1
             res["violations"].append({"violation": v, "scenario": scs[0]})
+        # a simulation copied in the middle of its run, the run continued with the copy
+        _b0 = paired.run_records(copy.deepcopy(scs[0]))
+        for v in paired.copy_midrun(scs[0], _b0, 2 * s, pid="C17"):
+            res["paired_runs"] += 1
+            res["violations"].append({"violation": v, "scenario": scs[0]})
         # isolated references
         refs = [paired.run_records(copy.deepcopy(sc)) for sc in scs]
         again = [paired.run_records(copy.deepcopy(sc)) for sc in scs]
